@@ -325,7 +325,7 @@ fn judge_built(cfg: &BuildCfg, dir: &std::path::Path, rep: &Report, local: &mut 
 
 fn run(ctx: &Ctx, rep: &Report) {
     let thorough = ctx.tier.pick(false, true);
-    let n: u64 = ctx.tier.pick(260, 8000);
+    let n: u64 = ctx.tier.pick(260, 16_000);
     let base = ctx.work_dir("build");
     par_for(ctx.threads, n, 1, |i| {
         let mut rng = Rng::for_case(ctx.seed, "C07", i);
